@@ -142,7 +142,7 @@ fn record_outcome(stats: &mut RunStats, op: &Op, out: &Outcome) {
         if kind == "repair.attempt" && *n >= 2 {
             *stats.probes.entry("reached:repair.attempt>=2".into()).or_insert(0) += 1;
         }
-        if kind == "insert.attempt" && *n >= 2 {
+        if kind == "insert.perturbation_retry" {
             *stats.probes.entry("reached:insert.perturbation_retry".into()).or_insert(0) += 1;
         }
     }
